@@ -1,8 +1,8 @@
 SPECIFICATION Spec
-CONSTANT Names = {"a", "b"}
+CONSTANT Names = {"a", "b", "c"}
 CONSTANT Models = {"m1", "m2"}
-CONSTANT Rename = FALSE
-CONSTANT Overwrite = TRUE
+CONSTANT Rename = TRUE
+CONSTANT Overwrite = FALSE
 CONSTANT MaxSaves = 3
 INVARIANT RoundTrip
 PROPERTY OldDirsImmutable
